@@ -71,6 +71,9 @@ package authf
 //@   perreturn
 //@   modifies buf.buf.bytes
 //@   ensures [C03] err == nil && buf.buf.bytes == pre
+//@   site if#2 assert [C03] buf.buf.bytes == e1
+//@   site if#4 assert [C03] buf.buf.bytes == e2
+//@   site if#6 assert [C03] buf.buf.bytes == e3
 //@   safety [C03]
 //
 //@ func (*BasicAuthInfo).WriteBlock
@@ -285,7 +288,7 @@ package authf
 //@   ensures [C05] readBuf.buf.i >= p0
 //@   ensures [C05] validR(readBuf)
 //@   loop 0 modifies elems(st.VObjName), readBuf.buf.i, readBuf.depth
-//@   loop 0 invariant [C05] validR(readBuf) && readBuf.buf.i >= p0 && st != nil && len(st.VObjName) == length
+//@   loop 0 invariant [C05] validR(readBuf) && readBuf.buf.i >= p0 && st != nil && len(st.VObjName) == e0
 //@   safety [C05]
 //
 //@ func (*TokenRequest).ReadBlock
